@@ -171,6 +171,7 @@ func histWorld(cfg histCfg, s histSpec) *dworld {
 func histSettle(w *dworld, bad func(key, format string, a ...interface{})) bool {
 	for round := 0; round < 10; round++ {
 		w.Sim.ResetLog()
+		w.Hooks.Reset() // (one world per search: do not let the recorded hook calls pile up)
 		hookFaultsBefore := histHookFaults
 		writeFaultsBefore := histWriteFaults
 		w.Sim.Plan = func(r *sim.Request) *sim.Fault {
